@@ -99,6 +99,8 @@ fn prepare_par_result(
     match (left_result, right_result) {
         (SubgraphResult::Succeeded, _) | (_, SubgraphResult::Succeeded) => {
             exec_ctx.last_error_descriptor.meet_par_successed_end();
+            // the failure of one branch, if any, ends here: a later failure must be able to set :error: again
+            exec_ctx.error_descriptor.enable_error_setting();
             Ok(())
         }
         (SubgraphResult::Failed(_), SubgraphResult::Failed(err)) => Err(err),
